@@ -68,6 +68,9 @@ type Engine struct {
 	bounds                  map[string]int
 	tier                    string
 	aborted                 bool
+	regMu                   sync.Mutex
+	registered              map[string][]types.Type // interface type -> registered implementation types
+	regDone                 bool
 }
 
 type State struct {
@@ -326,6 +329,8 @@ func (st *State) global(g *ssa.Global) *value {
 	st.globals[g] = p
 	return p
 }
+
+var registryType = types.NewPointer(types.NewNamed(types.NewTypeName(token.NoPos, nil, "gosx.interfaceRegistry", nil), types.NewStruct(nil, nil), nil))
 
 var errObjType = types.NewPointer(types.NewNamed(types.NewTypeName(token.NoPos, nil, "gosx.errObj", nil), types.NewStruct(nil, nil), nil))
 
@@ -1170,6 +1175,9 @@ func (fr *frame) prepareCall(cc *ssa.CallCommon) (value, []value) {
 		if recv.t == errObjType {
 			fn = "err." + cc.Method.Name()
 			args = append(args, recv.v)
+		} else if recv.t == registryType {
+			fn = "registry." + cc.Method.Name()
+			args = append(args, recv.v)
 		} else {
 			m := fr.st.e.prog.LookupMethod(recv.t, cc.Method.Pkg(), cc.Method.Name())
 			if m == nil {
@@ -1206,6 +1214,25 @@ func (fr *frame) invoke(fn value, args []value, cc *ssa.CallCommon) value {
 		switch fn {
 		case "err.Error":
 			return &Str{Len: st.freshVar("errtext_len", BV(64))} // opaque text
+		case "registry.RegisterImplementations":
+			// records (interface type -> implementation types) from the CURRENT source's RegisterInterfaces functions
+			ip, ok := args[1].(iface)
+			if !ok || ip.t == nil {
+				return nil
+			}
+			it := ip.t.(*types.Pointer).Elem()
+			for _, im := range args[2].([]value) {
+				if x, ok := im.(iface); ok && x.t != nil {
+					st.e.regMu.Lock()
+					st.e.registered[it.String()] = append(st.e.registered[it.String()], x.t)
+					st.e.regMu.Unlock()
+				}
+			}
+			return nil
+		case "registry.RegisterInterface":
+			return nil
+		case "registry.UnpackAny":
+			return st.unpackAny(args[1], args[2])
 		}
 	}
 	panic(pathEnd{kind: "unsupported", msg: fmt.Sprintf("call of %T", fn)})
@@ -1338,4 +1365,69 @@ func zeroOrNil(t types.Type) value {
 		return nil
 	}
 	return zero(t)
+}
+
+// ensureRegistry runs orbiter's own RegisterInterfaces functions (attribute types) on a recording registry, once.
+func (st *State) ensureRegistry() {
+	e := st.e
+	e.regMu.Lock()
+	done := e.regDone
+	e.regDone = true
+	if e.registered == nil {
+		e.registered = map[string][]types.Type{}
+	}
+	e.regMu.Unlock()
+	if done {
+		return
+	}
+	reg := iface{t: registryType, v: &opaque{tag: "registry"}}
+	for _, path := range []string{orb + "/types/controller/action", orb + "/types/controller/forwarding"} {
+		for _, p := range e.prog.AllPackages() {
+			if p.Pkg.Path() == path {
+				if f := p.Func("RegisterInterfaces"); f != nil {
+					st.callFunction(nil, f, []value{reg}, nil)
+				}
+			}
+		}
+	}
+}
+
+// unpackAny is interfaceRegistry.UnpackAny on a decoded blob: nil / empty Any are accepted as they are; otherwise the
+// dynamic type of the packed message must be registered for the interface the caller asks for.
+func (st *State) unpackAny(anyV, target value) value {
+	st.ensureRegistry()
+	ap, ok := anyV.(*value)
+	if !ok || ap == nil {
+		return iface{}
+	}
+	as, ok := (*ap).(structure)
+	if !ok {
+		return iface{}
+	}
+	var cached iface
+	for _, f := range as {
+		if x, ok := f.(iface); ok && x.t != nil {
+			cached = x
+		}
+	}
+	if cached.t == nil {
+		return iface{} // empty type URL: nothing to unpack
+	}
+	tp, ok := target.(iface)
+	if !ok || tp.t == nil {
+		return newErr(st, "UnpackAny expects a pointer")
+	}
+	it := tp.t.(*types.Pointer).Elem()
+	st.e.regMu.Lock()
+	impls := st.e.registered[it.String()]
+	st.e.regMu.Unlock()
+	for _, t := range impls {
+		if types.Identical(t, cached.t) {
+			if dst, ok := tp.v.(*value); ok && dst != nil {
+				*dst = cached
+			}
+			return iface{}
+		}
+	}
+	return newErr(st, "no concrete type registered for the type URL against the interface")
 }
